@@ -461,6 +461,11 @@ OCTET_STRING_decode_ber(const asn_codec_ctx_t *opt_codec_ctx,
 			&& sel->bits_chopped == 0) {
 				/* Put the unused-bits-octet away */
 				st->bits_unused = *(const uint8_t *)buf_ptr;
+				if(st->bits_unused & ~7) {
+					/* Never leave an impossible count in the structure */
+					st->bits_unused = 0;
+					RETURN(RC_FAIL);
+				}
 				APPEND(((const char *)buf_ptr+1), (len - 1));
 				sel->bits_chopped = 1;
 			} else {
@@ -492,6 +497,11 @@ OCTET_STRING_decode_ber(const asn_codec_ctx_t *opt_codec_ctx,
 			if(!size) RETURN(RC_WMORE);
 			if(type_variant == ASN_OSUBV_BIT && !ctx->context) {
 				st->bits_unused = *(const uint8_t *)buf_ptr;
+				if(st->bits_unused & ~7) {
+					/* Never leave an impossible count in the structure */
+					st->bits_unused = 0;
+					RETURN(RC_FAIL);
+				}
 				ctx->left--;
 				ADVANCE(1);
 			}
@@ -504,6 +514,11 @@ OCTET_STRING_decode_ber(const asn_codec_ctx_t *opt_codec_ctx,
 			if(type_variant == ASN_OSUBV_BIT
 			&& !ctx->context && ctx->left) {
 				st->bits_unused = *(const uint8_t *)buf_ptr;
+				if(st->bits_unused & ~7) {
+					/* Never leave an impossible count in the structure */
+					st->bits_unused = 0;
+					RETURN(RC_FAIL);
+				}
 				ctx->left--;
 				ADVANCE(1);
 			}
